@@ -11,7 +11,7 @@ from . import loops
 PROPERTY = "C11"
 LEVEL = "proof"
 TASKS = loops.tasks_for({"C11"})
-TRUSTED = ["Gymnasium Env API contract (reset/step typestate, pyvc/lib/gym_model.py)"]
-ASSUMPTIONS = ["update routines are identified by the call sites of the (stubbed) train-step / actor-update / temperature-update functions"]
-NOT_COVERED = []
-REPLAY = {"": "loops_native"}
+TRUSTED = ["Gymnasium Env API contract (reset/step typestate, pyvc/lib/gym_model.py)"] + loops.EXTRA_TRUSTED
+ASSUMPTIONS = ["update routines are identified by the call sites of the (stubbed) train-step / actor-update / temperature-update functions"] + loops.EXTRA_ASSUMPTIONS
+NOT_COVERED = [] + loops.EXTRA_NOT_COVERED
+REPLAY = loops.REPLAY  # loops_native (replay-buffer family) / loops_extra_native (tabular, on-policy collectors, rollout helper)
